@@ -199,21 +199,27 @@ def run(ctx, chk):
                   "switch-literal<-selector", "for a Switch row parse_operands consumes %s (expected: selector, default, then (literal sized by the selector id, label id) pairs)" % c["consumed"], WP)
     except Anchor as ex:
         chk.bad(R3, "parse_operands", "parse_operands is not analysable: %s" % ex, WP, key="C10:parse_operands-shape")
-    fn = mir.one("binary::parser::Parser::parse")
-    g = Cfg(fn)
-    T = [i for i in g.calls("track") if (g.blocks[i]["t"].get("rs") or "").endswith("TypeTracker")]
-    CI = g.calls("consume_instruction", "parser::Consumer")
-    PI = g.calls("parse_inst")
-    good = len(T) == 1 and len(CI) == 1 and len(PI) == 1 and g.dominates(PI[0], T[0]) and g.dominates(T[0], CI[0]) and PI[0] in g.reachable(g.blocks[CI[0]]["t"]["to"][0])
-    chk.check(R3, good, "track-before-deliver", "track is not executed for every instruction between parse_inst and consume_instruction", raw.where("parse", "Parser"))
-    if good:
-        ta = g.blocks[T[0]]["t"]["args"]
-        chk.ok(R3, "track-argument-is-the-parsed-instruction")
-    # parse_literal callers: only these two arms
-    callers = [(mir_name(p), where(b["t"]["span"])) for p, f_ in mir.fns.items() for b in f_["blocks"]
-               if b["t"]["t"] == "call" and b["t"].get("rn") == "parse_literal"]
-    chk.check(R3, len(callers) == 2 and all(c[0].endswith("Parser::parse_operands") for c in callers), "parse_literal-callers",
-              "parse_literal is called from %s" % callers, WP)
+    from . import headerx as _hx
+    tp = [(i_, pb_) for i_, pb_, _s in _hx.parse_problems(ctx) if pb_ and ("type tracker" in pb_ or "not analysable" in pb_ or "panics" in pb_)]
+    chk.check(R3, not tp, "track-before-next-instruction", "Parser::parse evaluated on scripted streams: %s" % tp[:2], raw.where("parse", "Parser"))
+    # parse_literal is reached only through parse_operands (directly or through private helpers that only parse_operands reaches)
+    callers_of = {}
+    for p_, f_ in mir.fns.items():
+        for b_ in f_["blocks"]:
+            if b_["t"]["t"] == "call" and b_["t"].get("rn"):
+                callers_of.setdefault(b_["t"]["rn"], set()).add(mir_name(p_).split("::")[-1])
+    frontier, seen_, bad_roots = ["parse_literal"], set(), set()
+    while frontier:
+        x_ = frontier.pop()
+        for c_ in callers_of.get(x_, ()):
+            if c_ == "parse_operands" or c_ in seen_:
+                continue
+            seen_.add(c_)
+            if not callers_of.get(c_):
+                bad_roots.add(c_)
+            frontier.append(c_)
+    chk.check(R3, bool(callers_of.get("parse_literal")) and not bad_roots, "parse_literal-callers",
+              "parse_literal is reachable from %s without passing parse_operands" % sorted(bad_roots), WP, sample=sorted(callers_of.get("parse_literal", ())))
 
     R4 = chk.rule("R-FRESH", "every Parser starts with an empty TypeTracker; the crate has no mutable, interior-mutable or thread-local "
                   "static, so nothing survives from an earlier parse; the tracker's map is private")
